@@ -171,6 +171,8 @@ func checkC17(c *Ctx) {
 	sort.Strings(offenders)
 	c.R.Check(len(offenders) == 0, ruleP7, "no-goroutine-spawned-while-handling-a-packet", c.P.Pos(r.Handler.Pos()), fmt.Sprintf("no go statement in the %d functions reachable from the handler", len(c.reachFrom(r.Handler))), "a go statement is reachable from the packet handler ("+strings.Join(offenders, "; ")+"): deliveries of one publisher can overtake each other")
 	lockBalance(c, func(cl string) bool { return cl == "service.service.wmu" }, "write-mutex")
+	// what goes out has the length Len() says and the bytes the encoder counted (T1 length tables, B14)
+	c.codecLengthTables()
 }
 
 // writerCriticalSpan: L7 in the ring writer.
